@@ -20,4 +20,5 @@ var Registry = map[string]func() *vlib.Plan{
 	"C15": C15Plan,
 	"C16": C16Plan,
 	"C18": C18Plan,
+	"C19": C19Plan,
 }
